@@ -1,18 +1,6 @@
-mod analysis;
-mod check;
-mod codec;
-mod gen;
-mod hostile;
-mod oracle;
-mod profiles;
-mod props;
-mod refcodec;
-mod rng;
-mod scenario;
-mod spec;
-mod world;
 
-use check::{Options, Tier};
+use posim::check::{self, Options, Tier};
+use posim::refcodec;
 
 fn usage() -> ! {
     eprintln!(
